@@ -271,15 +271,15 @@ func verifSymIdentity() {
 // ---------- backup environment ----------
 
 var verifBackup struct {
-	gens      []uint64
-	genCalls  int
-	curGen    uint64
-	uploads   [][]byte
-	uploadGen []uint64
-	files     [][]byte
-	waits     int
-	readers   map[*bytes.Reader][]byte
-	cancelAt  int
+	gens        []uint64
+	genCalls    int
+	curGen      uint64
+	uploads     [][]byte
+	uploadGen   []uint64
+	files       [][]byte
+	waits       int
+	readers     map[*bytes.Reader][]byte
+	cancelAt    int
 	mustUpload  bool
 	attempts    int
 	lastGoodGen uint64
